@@ -169,6 +169,20 @@ func gen(r *hlib.Rand, n int, tier, profile string, emit func(string, ...any)) {
 			}
 		}
 	}
+	// ---- sequences of batches on one writer: the GSO flag and the slots' control side persist
+	for i := 0; i < n/8; i++ {
+		scratch := hlib.Pick(r, 2, 3, 4, 8, 128)
+		emit("reset %d %s 1 %d %s", scratch, hlib.B(!r.Chance(1, 6)), hlib.Pick(r, 2, 3, 63, 63), dsts)
+		for j := r.Range(2, 4); j > 0; j-- {
+			ps := genBatch(r, hlib.Pick(r, 4, 8, 12), r.Chance(1, 6))
+			var script []string
+			for q := hlib.Pick(r, 0, 1, 2, 3); q > 0; q-- {
+				// plenty of EIO: the disable and what follows it are the point of these cases
+				script = append(script, hlib.Pick(r, "0:eio", "0:eio", "1:ok", "1000:ok", "0:other", genOutcome(r)))
+			}
+			emit("send %s %s", pktsText(ps), scriptText(script))
+		}
+	}
 	// ---- random
 	for i := 0; i < n; i++ {
 		scratch := hlib.Pick(r, 1, 2, 3, 4, 8, 16, 128, 128, 128, 128)
@@ -216,28 +230,38 @@ func nameKey(name []byte) string {
 	return "?"
 }
 
+type writer struct {
+	w       *udp.VerifBatchWriter
+	scratch int
+	dsts    []netip.AddrPort
+	keyIdx  map[string]int
+}
+
 func newExec(t *testing.T) func([]string) string {
 	logger := slog.New(slog.NewTextHandler(io.Discard, nil))
 	var slab []byte
-	return func(a []string) string {
-		if (a[0] != "wb" && a[0] != "wbq") || len(a) != 8 {
-			return "bad-op"
+	var cur *writer // the writer shared by `send` ops since the last `reset`
+
+	mk := func(a []string) *writer { // scratch isV4 gso maxSeg dsts
+		wr := &writer{scratch: hlib.Atoi(a[0]), keyIdx: map[string]int{}}
+		for _, s := range strings.Split(a[4], ";") {
+			wr.dsts = append(wr.dsts, hlib.ParseAddrPortHex(s))
 		}
-		scratch, isV4, gso, maxSeg := hlib.Atoi(a[1]), a[2] == "1", a[3] == "1", hlib.Atoi(a[4])
-		var dsts []netip.AddrPort
-		for _, s := range strings.Split(a[5], ";") {
-			dsts = append(dsts, hlib.ParseAddrPortHex(s))
-		}
-		keyIdx := map[string]int{}
-		for i, d := range dsts {
-			if _, ok := keyIdx[wireKey(d)]; !ok {
-				keyIdx[wireKey(d)] = i
+		for i, d := range wr.dsts {
+			if _, ok := wr.keyIdx[wireKey(d)]; !ok {
+				wr.keyIdx[wireKey(d)] = i
 			}
 		}
+		wr.w = udp.VerifNewBatchWriter(wr.scratch, a[1] == "1", a[2] == "1", hlib.Atoi(a[3]), logger)
+		return wr
+	}
+
+	doBatch := func(wr *writer, pktsArg, scriptArg string, queue bool) string {
+		w, dsts, keyIdx := wr.w, wr.dsts, wr.keyIdx
 		var lens, dIdx []int
 		total := 0
-		if a[6] != "-" {
-			for _, s := range strings.Split(a[6], ",") {
+		if pktsArg != "-" {
+			for _, s := range strings.Split(pktsArg, ",") {
 				f := strings.Split(s, "@")
 				lens = append(lens, hlib.Atoi(f[0]))
 				dIdx = append(dIdx, hlib.Atoi(f[1]))
@@ -264,14 +288,13 @@ func newExec(t *testing.T) func([]string) string {
 			err  string
 		}
 		var script []outcome
-		if a[7] != "-" {
-			for _, s := range strings.Split(a[7], ",") {
+		if scriptArg != "-" {
+			for _, s := range strings.Split(scriptArg, ",") {
 				f := strings.Split(s, ":")
 				script = append(script, outcome{hlib.Atoi(f[0]), f[1]})
 			}
 		}
 
-		w := udp.VerifNewBatchWriter(scratch, isV4, gso, maxSeg, logger)
 		var calls []string
 		k := 0
 		w.SetSendFn(func(start, n int) (int, error) {
@@ -316,6 +339,7 @@ func newExec(t *testing.T) func([]string) string {
 				default:
 					s = "[" + strings.Join(idxs, ";") + "]+" + strconv.Itoa(len(idxs))
 				}
+				// the control side exactly as the kernel would see it: Hdr.Control / Hdr.Controllen
 				if len(control) == 0 {
 					s += "p"
 				} else {
@@ -354,9 +378,9 @@ func newExec(t *testing.T) func([]string) string {
 		})
 		var written int
 		var err error
-		if a[0] == "wbq" {
+		if queue {
 			// the production path: packets are reserved from the SendBatch arena, committed, and flushed
-			sb := batch.NewSendBatch(w, hlib.Atoi(a[1]), 64)
+			sb := batch.NewSendBatch(w, wr.scratch, 64)
 			for i, ln := range lens {
 				b := sb.Reserve(ln)
 				if ln > 0 {
@@ -379,6 +403,22 @@ func newExec(t *testing.T) func([]string) string {
 			out += " | " + c
 		}
 		return out
+	}
+
+	return func(a []string) string {
+		switch {
+		case a[0] == "reset" && len(a) == 6:
+			cur = mk(a[1:])
+			return "ok"
+		case a[0] == "send" && len(a) == 3:
+			if cur == nil {
+				return "bad-op"
+			}
+			return doBatch(cur, a[1], a[2], false)
+		case (a[0] == "wb" || a[0] == "wbq") && len(a) == 8:
+			return doBatch(mk(a[1:6]), a[6], a[7], a[0] == "wbq")
+		}
+		return "bad-op"
 	}
 }
 
